@@ -325,7 +325,7 @@ func coqCase(name string, c *Case) string {
 	var b strings.Builder
 	fmt.Fprintf(&b, "Definition %s : c10_case := mkCase\n %s\n %s\n %s\n %s\n %s\n %s\n", name,
 		vh.List(defs), coqClauses(c.Raw), ex, re, du, ds)
-	fmt.Fprintf(&b, " true %s %s\n %s %s %s\n %s %s %s %s.\n", coqClauses(c.PrintedA), vh.Z(int64(c.A.Cfg.RepeatActNum)),
+	fmt.Fprintf(&b, " true %s\n %s %s\n %s %s %s\n %s %s %s %s.\n", coqClauses(c.PrintedA), B(c.A.Printed), vh.Z(int64(c.A.Cfg.RepeatActNum)),
 		vh.Bool(c.R2.Accepted), p2, vh.Z(int64(act2)),
 		vh.Bool(sameData), vh.Bool(sameSteps), vh.Bool(otherOk), vh.Bool(c.TextRisk))
 	return b.String()
